@@ -11,6 +11,8 @@ import EV.Proofs.Issuance
 import EV.Proofs.Json
 import EV.Proofs.JsonText
 import EV.Proofs.IssuanceBridge
+import EV.Proofs.PeggedAsset
+import EV.Proofs.PeggedAssetKernel
 namespace EV.Props.C11
 open EV EV.Codec EV.Issuance
 
@@ -338,5 +340,241 @@ theorem pset_input_is_projection_of_full_model (H : Hashes) (t : TxIn) :
     (EV.Proofs.IssuanceBridge.proj (PsetInput.fromTxIn t)).issuanceIds H = (IssPsetInput.fromTxin t).issuanceIds H :=
   ⟨EV.Proofs.IssuanceBridge.fromTxin_proj t, (EV.Proofs.IssuanceBridge.ids_of_full_model H t).2,
    (EV.Proofs.IssuanceBridge.ids_of_full_model H t).1⟩
+
+/-! ## 7. the pegged-asset id of a network (src/issuance.rs: `AssetId::pegged_asset_id_for_network_params`)
+
+  Model: EV.Model.PeggedAsset (`forNetworkParams`, `forParamsAndParent`), on top of the genesis model of C02
+  (`NetworkParams`, `commit`) and the derivation of §1.  `G.sha256` (the commitment), `G.sha256d` and
+  `G.comb` are parameters; the two asset ids, the two strings of the `match`, the output index and the
+  chain hashes of the parent networks are regenerated from the Rust sources on every run
+  (tools/extract.d/pegged.py; the chain hashes come from the `bitcoin` crate /repo/Cargo.lock resolves to). -/
+section Pegged
+open EV.Genesis EV.PeggedAsset EV.Proofs.PeggedAsset
+
+variable (G : GHashes) (p : NetworkParams)
+
+/-! ### (a) what the function returns -/
+
+/-- `pegged_asset_id_for_network_params` never panics -/
+theorem pegged_total : ∃ a, forNetworkParams G p = some a := total G p
+
+/-- the first arm: a parameter set whose `network_id` is the first matched string gets `LIQUID_BTC` … -/
+theorem pegged_first_arm (h : p.networkId = networkIdLiquidBtc) : forNetworkParams G p = some liquidBtc :=
+  named_first G p h
+
+/-- … the second arm: `LIQUIDTESTNET_BTC` -/
+theorem pegged_second_arm (h : p.networkId = networkIdLiquidtestnetBtc) :
+    forNetworkParams G p = some liquidtestnetBtc := named_second G p h
+
+/-- A fact users should know: for the two named networks the fedpeg script, the sign-block script and the
+    free coins of `params` are IGNORED — any parameter set that merely carries the name gets the constant,
+    and the hash functions play no role. -/
+theorem pegged_named_ignores_scripts (G' : GHashes) (fed sb : Bytes) (coins : Nat) (h : IsNamed p) :
+    forNetworkParams G' ⟨p.networkId, fed, sb, coins⟩ = forNetworkParams G p := by
+  rcases h with h | h
+  · rw [named_first G p h, named_first G' ⟨p.networkId, fed, sb, coins⟩ h]
+  · rw [named_second G p h, named_second G' ⟨p.networkId, fed, sb, coins⟩ h]
+
+/-- the two matched strings are the network ids of the built-in parameter sets of src/genesis.rs, so
+    `NetworkParams::liquidv1()` / `liquidtestnet()` get the two constants, which differ -/
+theorem pegged_builtin :
+    forNetworkParams G NetworkParams.liquidv1 = some liquidBtc ∧
+    forNetworkParams G NetworkParams.liquidtestnet = some liquidtestnetBtc ∧ liquidBtc ≠ liquidtestnetBtc :=
+  ⟨named_first G _ liquidv1_named, named_second G _ liquidtestnet_named, consts_distinct⟩
+
+/-- every other network: exactly the issuance derivation of §1 — a NEW ISSUANCE spending output 0 of the
+    "transaction" whose id is the commitment to the parameters, with the chain hash of the parent chain
+    (bitcoin REGTEST) in the contract-hash position -/
+theorem pegged_custom (h : ¬ IsNamed p) :
+    forNetworkParams G p = newIssuance G.toHashes ⟨commit G.sha256 p, 0⟩ regtestChainHash ∧
+    forNetworkParams G p =
+      (match generateAssetEntropy G.toHashes ⟨commit G.sha256 p, 0⟩ regtestChainHash with
+       | some e => fromEntropy G.toHashes e
+       | none => none) := by
+  rw [custom_eq G p h, parent_is_regtest, derive_is_newIssuance, vout_zero]
+  refine ⟨rfl, ?_⟩
+  simp only [newIssuance, entropy_formula]
+
+/-- … in closed form -/
+theorem pegged_custom_formula (h : ¬ IsNamed p) :
+    forNetworkParams G p =
+      some (G.comb (G.comb (G.sha256d (commit G.sha256 p ++ [0, 0, 0, 0])) regtestChainHash) (List.replicate 32 0)) := by
+  rw [custom_eq G p h, parent_is_regtest, derive_eq, derived, le_vout, EV.Proofs.Issuance.assetLeaf_eq]
+
+/-- the private `pegged_asset_id_for_params_and_parent_chain_hash` for any parent chain hash -/
+theorem pegged_derive_formula (x : Bytes) :
+    forParamsAndParent G p x = newIssuance G.toHashes ⟨commit G.sha256 p, 0⟩ x ∧
+    forParamsAndParent G p x =
+      some (G.comb (G.comb (G.sha256d (commit G.sha256 p ++ [0, 0, 0, 0])) x) (List.replicate 32 0)) := by
+  refine ⟨by rw [derive_is_newIssuance, vout_zero], ?_⟩
+  rw [derive_eq, derived, le_vout, EV.Proofs.Issuance.assetLeaf_eq]
+
+/-- the id depends on the parameters only through the commitment (network id ‖ hex fedpeg ‖ hex sign-block,
+    `commit_def` of C02): the free coins are never looked at … -/
+theorem pegged_ignores_free_coins (coins : Nat) :
+    forNetworkParams G { p with initialFreeCoins := coins } = forNetworkParams G p := rfl
+
+theorem pegged_depends_only_on_commit (q : NetworkParams) (hp : ¬ IsNamed p) (hq : ¬ IsNamed q)
+    (h : commit G.sha256 p = commit G.sha256 q) : forNetworkParams G p = forNetworkParams G q := by
+  rw [custom_eq G p hp, custom_eq G q hq, derive_eq, derive_eq, h]
+
+/-- … and since the commitment has no separators (`commit_split_ambiguity` of C02), two DIFFERENT custom
+    parameter sets can have the same pegged asset under every hash function -/
+theorem pegged_split_ambiguity :
+    ∃ a b : NetworkParams, a ≠ b ∧ ¬ IsNamed a ∧ ¬ IsNamed b ∧ ∀ G : GHashes, forNetworkParams G a = forNetworkParams G b :=
+  ⟨⟨[0x61, 0x62], [], [], 0⟩, ⟨[], [0xab], [], 0⟩, by decide, by decide, by decide,
+   fun G => pegged_depends_only_on_commit G _ _ (by decide) (by decide) rfl⟩
+
+/-! ### (b) relation to the genesis block (C02) -/
+
+/-- With free coins the genesis block's second transaction issues an asset from the SAME outpoint
+    (commitment, 0) — but with the ZERO contract hash, where the pegged asset has the parent chain hash. -/
+theorem genesis_asset_same_outpoint (h : p.initialFreeCoins ≠ 0) :
+    ∃ t i o a, genesisAssetTx G p = some (some t) ∧ t.input = [i] ∧ t.output = [o] ∧
+      i.previousOutput = ⟨commit G.sha256 p, 0⟩ ∧ o.asset = .explicit a ∧
+      newIssuance G.toHashes ⟨commit G.sha256 p, 0⟩ (List.replicate 32 0) = some a ∧
+      forParamsAndParent G p (List.replicate 32 0) = some a := by
+  obtain ⟨i, o, hi, ho, _, hasset, hnew, _, _, hprev, _, _⟩ :=
+    EV.Proofs.Genesis.assetTx_ids G.toHashes (commit G.sha256 p) p.initialFreeCoins
+  refine ⟨_, i, o, _, EV.Proofs.Genesis.genesisAssetTx_nonzero G p h, hi, ho, ?_, hasset, ?_, ?_⟩
+  · rw [hprev, vout_genesis, vout_zero]
+  · rw [← hnew, hprev, vout_genesis, vout_zero]
+  · rw [derive_eq, genesisAssetId_eq_derived]
+
+/-- Hence the asset issued in the genesis block of a custom network is NOT its pegged asset: if the two
+    ids coincide, a collision of the compression function is exhibited. -/
+theorem genesis_asset_ne_pegged (hn : ¬ IsNamed p) (t : Tx) (o : TxOut) (a : Bytes)
+    (ht : genesisAssetTx G p = some (some t)) (ho : o ∈ t.output) (ha : o.asset = .explicit a)
+    (h : forNetworkParams G p = some a) : Collision2 G.comb := by
+  have h0 : p.initialFreeCoins ≠ 0 := by
+    intro h0; rw [EV.Proofs.Genesis.genesisAssetTx_zero G p h0] at ht; cases ht
+  rw [EV.Proofs.Genesis.genesisAssetTx_nonzero G p h0] at ht
+  simp only [Option.some.injEq] at ht
+  subst ht
+  simp only [EV.Proofs.Genesis.assetTx, List.mem_singleton] at ho
+  subst ho
+  simp only [Asset.explicit.injEq] at ha
+  subst ha
+  rw [custom_eq G p hn] at h
+  exact genesis_ne_derive G p _ parent_ne_zero h
+
+/-- the same for any non-zero parent chain hash (mainnet, testnet, …) -/
+theorem genesis_asset_ne_derived (x : Bytes) (hx : x ≠ List.replicate 32 0)
+    (h : forParamsAndParent G p x = forParamsAndParent G p (List.replicate 32 0)) : Collision2 G.comb := by
+  rw [derive_eq, derive_eq] at h
+  rcases derived_same_commit G.toHashes _ _ _ (Option.some.inj h) with e | hc
+  · exact absurd e hx
+  · exact hc
+
+/-! ### (c) what the pegged asset commits to -/
+
+/-- two custom parameter sets with the same pegged asset have the same commitment, or a collision of
+    double SHA-256 or of the compression function is exhibited … -/
+theorem pegged_commits (q : NetworkParams) (hp : ¬ IsNamed p) (hq : ¬ IsNamed q)
+    (h : forNetworkParams G p = forNetworkParams G q) :
+    commit G.sha256 p = commit G.sha256 q ∨ Collision G.sha256d ∨ Collision2 G.comb := by
+  rw [custom_eq G p hp, custom_eq G q hq] at h
+  rcases derive_commits G p q _ _ h with ⟨e, _⟩ | hc
+  · exact Or.inl e
+  · exact Or.inr hc
+
+/-- … down to the hashed string: equal (network id ‖ hex fedpeg ‖ hex sign-block), or a collision of one of
+    the three hash functions -/
+theorem pegged_commits_preimage (q : NetworkParams) (hp : ¬ IsNamed p) (hq : ¬ IsNamed q)
+    (h : forNetworkParams G p = forNetworkParams G q) :
+    commitPreimage p = commitPreimage q ∨ Collision G.sha256 ∨ Collision G.sha256d ∨ Collision2 G.comb := by
+  rcases pegged_commits G p q hp hq h with e | hc
+  · by_cases he : commitPreimage p = commitPreimage q
+    · exact Or.inl he
+    · exact Or.inr (Or.inl ⟨_, _, he, e⟩)
+  · exact Or.inr (Or.inr hc)
+
+/-- the derivation commits to the parent chain hash as well -/
+theorem pegged_derive_commits (q : NetworkParams) (x x' : Bytes)
+    (h : forParamsAndParent G p x = forParamsAndParent G q x') :
+    (commit G.sha256 p = commit G.sha256 q ∧ x = x') ∨ Collision G.sha256d ∨ Collision2 G.comb :=
+  derive_commits G p q x x' h
+
+/-- a custom network never gets one of the two pinned ids unless they are derived ids themselves: stated for
+    `LIQUID_BTC`, which IS a derived id (`liquid_btc_is_mainnet_derivation`) — a custom network whose pegged
+    asset (regtest parent) equals the mainnet derivation for liquidv1 exhibits a collision, because the
+    regtest and mainnet chain hashes differ -/
+theorem pegged_custom_ne_liquidv1_derivation (h : forParamsAndParent G p regtestChainHash =
+      forParamsAndParent G NetworkParams.liquidv1 bitcoinChainHash) :
+    Collision G.sha256d ∨ Collision2 G.comb := by
+  rcases derive_commits G p _ _ _ h with ⟨_, e⟩ | hc
+  · exact absurd e (by decide)
+  · exact hc
+
+/-! ### (d) the two pinned ids and the derivation, checked by the kernel
+
+  The model is run with the kernel-evaluable SHA-256 (EV.Model.Sha256K, compared with bitcoin_hashes by the
+  K op `shak` of C02) on the extracted parameter sets, chain hashes and asset ids (`decide +kernel`,
+  EV.Proofs.PeggedAssetKernel).  No documentation of the crate promises either equality; the crate's test
+  `liquid_asset_ids` pins the first and the third statement. -/
+
+/-- `LIQUID_BTC` IS the derivation applied to the liquidv1 parameters with the Bitcoin MAINNET chain hash -/
+theorem liquid_btc_is_mainnet_derivation :
+    forParamsAndParent EV.Proofs.GenesisKernel.kernelHashes NetworkParams.liquidv1 bitcoinChainHash = some liquidBtc :=
+  EV.Proofs.PeggedAssetKernel.liquidBtc_mainnet
+
+/-- `LIQUIDTESTNET_BTC` is NOT the derivation applied to the liquidtestnet parameters with the Bitcoin
+    TESTNET (testnet3) chain hash … -/
+theorem liquidtestnet_btc_is_not_testnet_derivation :
+    forParamsAndParent EV.Proofs.GenesisKernel.kernelHashes NetworkParams.liquidtestnet testnetChainHash ≠ some liquidtestnetBtc :=
+  EV.Proofs.PeggedAssetKernel.liquidtestnetBtc_not_testnet
+
+/-- … it is the derivation with the all-ZERO parent chain hash, i.e. (`genesis_asset_same_outpoint`) the id of
+    the asset that the liquidtestnet GENESIS BLOCK issues -/
+theorem liquidtestnet_btc_is_zero_parent_derivation :
+    forParamsAndParent EV.Proofs.GenesisKernel.kernelHashes NetworkParams.liquidtestnet (List.replicate 32 0) = some liquidtestnetBtc :=
+  EV.Proofs.PeggedAssetKernel.liquidtestnetBtc_zero
+
+/-- the string arms of the `match` are not redundant: the fall-through arm (regtest parent) would give
+    neither constant for the built-in parameter sets -/
+theorem builtin_not_fallthrough :
+    forParamsAndParent EV.Proofs.GenesisKernel.kernelHashes NetworkParams.liquidv1 parentChainHash ≠ some liquidBtc ∧
+    forParamsAndParent EV.Proofs.GenesisKernel.kernelHashes NetworkParams.liquidtestnet parentChainHash ≠ some liquidtestnetBtc :=
+  EV.Proofs.PeggedAssetKernel.builtin_not_fallthrough
+
+/-! ### (e) `AssetId` as bytes and as text -/
+
+/-- `from_byte_array` / `to_byte_array` / `into_tag` keep the 32 bytes as they are (no reversal) -/
+theorem assetid_accessors (a : Bytes) : toByteArray (fromByteArray a) = a ∧ intoTag a = a := ⟨rfl, rfl⟩
+
+/-- `Display` (= `{:x}` = `{:?}`) is the lower-case hex of the bytes in REVERSED order, `{:X}` its upper case -/
+theorem assetid_display_reversed (a : Bytes) :
+    display a = EV.Text.hexStr a.reverse ∧ upperHex a = (EV.Text.hexStr a.reverse).map upperChar := ⟨rfl, rfl⟩
+
+/-- `FromStr` inverts `Display` and accepts the upper-case form too -/
+theorem assetid_text_roundtrip (a : Bytes) (h : a.length = 32) :
+    fromStr (display a) = .ok a ∧ fromStr (upperHex a) = .ok a :=
+  ⟨fromStr_display a h, fromStr_upperHex a h⟩
+
+/-- `FromStr` accepts only strings of exactly 64 characters (63, 65, odd lengths, a `0x` prefix are errors)
+    and yields 32 bytes -/
+theorem assetid_fromStr_length (s : EV.Text.Str) (a : Bytes) (h : fromStr s = .ok a) : s.length = 64 ∧ a.length = 32 :=
+  fromStr_ok s a h
+
+/-- the `Display` string of `LIQUID_BTC` is the one the crate's test `liquid` asserts (both extracted) -/
+theorem liquid_btc_display : String.ofList (display liquidBtc) = EV.Gen.peggedLiquidBtcDisplay := by decide
+
+/-! ### non-vacuity -/
+
+/-- `NetworkParams::custom_network("elementsregtest", None, None, Some(21))` is not a named network and has free coins -/
+example : ¬ IsNamed (NetworkParams.customNetwork [101, 108, 101, 109, 101, 110, 116, 115, 114, 101, 103, 116, 101, 115, 116] none none (some 21)) ∧
+    (NetworkParams.customNetwork [101, 108, 101, 109, 101, 110, 116, 115, 114, 101, 103, 116, 101, 115, 116] none none (some 21)).initialFreeCoins ≠ 0 := by decide
+example : IsNamed NetworkParams.liquidv1 ∧ IsNamed NetworkParams.liquidtestnet := by decide
+/-- two different custom networks with different commitments (constant-length hashes: `constHashes` of C02) -/
+example : ∃ q : NetworkParams, ¬ IsNamed q ∧ forNetworkParams EV.Proofs.Genesis.constHashes q =
+    forNetworkParams EV.Proofs.Genesis.constHashes ⟨[0x61], [], [], 0⟩ := ⟨⟨[0x62], [], [], 0⟩, by decide, rfl⟩
+/-- the genesis asset transaction of liquidtestnet exists and has an explicit-asset output -/
+example : ∃ t o a, genesisAssetTx EV.Proofs.Genesis.constHashes NetworkParams.liquidtestnet = some (some t) ∧
+    o ∈ t.output ∧ o.asset = .explicit a :=
+  ⟨_, _, _, EV.Proofs.Genesis.genesisAssetTx_nonzero _ _ (by decide), List.mem_singleton.mpr rfl, rfl⟩
+example : (display liquidBtc).length = 64 ∧ fromStr (display liquidBtc) = .ok liquidBtc :=
+  ⟨by decide, fromStr_display _ const_lengths.1⟩
+
+end Pegged
 
 end EV.Props.C11
